@@ -512,6 +512,7 @@ class Model:
             # moved into another module of the package and imported back where it was
             r = self.resolve_name(m, name)
             if r is not None and r[0] == "func":
+                r[1].anchor_qualname = "%s.%s" % (module_short, name)
                 return r[1]
             raise AnalysisError("function %s.%s not found (vanished anchor)" % (module_short, name))
         return fn
